@@ -36,7 +36,7 @@ func init() {
 		NotDecided: "that the snapshot image equals the volume at the instant it was taken; byte identity after preload/reopen; what FIEMAP reports.",
 	}
 	registry["C07"] = &propSpec{
-		Rules: []ruleFn{ruleC07AddOrder("C07-ADD-ORDER"), ruleC07Merge, ruleC07Sync, ruleCanAdd("C07-ONE-WO"), ruleC04Verify("C07-VERIFY"), ruleBuildRW("C07-WRITERS"), ruleIndexMapUse("C07-INDEXMAP"), ruleC01Head},
+		Rules: []ruleFn{ruleC07AddOrder("C07-ADD-ORDER"), ruleC07Merge, ruleC07Sync, ruleC07SyncFiles, ruleCanAdd("C07-ONE-WO"), ruleC04Verify("C07-VERIFY"), ruleBuildRW("C07-WRITERS"), ruleIndexMapUse("C07-INDEXMAP"), ruleC01Head},
 		Explanation: "Decides the ordering obligations of a rebuild: admission only after canAdd, the same snapshot on old and new replicas, WO mode on replica, list entry and wrapper; at most one WO unless the newcomer has the strictly greater revision and the old WO was removed; punching off and rebuilding flag set before the copy; ReloadReplica -> SyncDir -> UpdateLUNMap -> VerifyRebuildReplica -> SetRebuilding(false), each after the success of its predecessor; the live block map is overwritten by the preloaded one only where live <= preloaded; WO replicas receive every write; promotion as in C04-VERIFY.",
 		NotDecided: "byte identity (copying is done by external ssync); interleavings and crash points of three processes.",
 	}
@@ -46,7 +46,7 @@ func init() {
 		NotDecided: "what reopen sees at each intermediate on-disk state; torn 4 KiB writes; durability of O_DIRECT data.",
 	}
 	registry["C09"] = &propSpec{
-		Rules: []ruleFn{ruleC09, ruleRevParse("C09-REVPARSE")},
+		Rules: []ruleFn{ruleC09, ruleRevParse("C09-REVPARSE"), ruleC09Register},
 		Explanation: "Decides that the post-election start signal is guarded by the registered-majority facts, that a rebuilding replica never becomes leader, that the leader is replaced only by the registered entry with a strictly greater RevCount (the stored value is that entry's key), that StartSignalled is set only after a delivered signal and an unreachable leader is deleted from the registry before its name is cleared, that Start is honoured only from the signalled leader with no replica attached, that lower counters are marked ERR against the running maximum, and that revision counts are parsed as 64-bit decimals.",
 		NotDecided: "truthfulness of reported counts; liveness probes; orderings of registrations as such.",
 	}
@@ -61,7 +61,7 @@ func init() {
 		NotDecided: "that the external merge (sfold) preserves content.",
 	}
 	registry["C12"] = &propSpec{
-		Rules: []ruleFn{ruleC12, ruleC12Chain, ruleC12Rollback, ruleC12Publish, ruleC08Commit, ruleC11Refuse("C12-REFUSE")},
+		Rules: []ruleFn{ruleC12, ruleC12Chain, ruleC12Rollback, ruleC08CloseWho, ruleC12Publish, ruleC08Commit, ruleC11Refuse("C12-REFUSE")},
 		Explanation: "Decides that every change of a persisted attribute is written to its metadata file on all success paths (or published only after the write), that request-supplied disk names are validated before any file operation, that open accepts every chain length create can produce, the commit order of createDisk, and (C12-PUBLISH) that createDisk / markDiskAsRemoved do not return an error after the in-memory chain was modified - the latter is violated today and recorded as a known finding.",
 		NotDecided: "acyclicity/shape of the chain as a run-time graph; equality of the reopened chain with the previous one.",
 	}
